@@ -1224,6 +1224,14 @@ def rule_r13(prog, res):
                     'validation')
 
 
+def rule_r14(prog, res):
+    from . import c02
+    from ..report import Result
+    res.share('R14', 'the member table a reader validates against belongs to '
+              'the class it finally builds (C02-R7)', 'C02', c02.rule_r7,
+              prog, Result)
+
+
 def run(prog, res, tier):
     guard_helpers(prog)
     res.run_rule(rule_r1, prog, res)
@@ -1239,6 +1247,7 @@ def run(prog, res, tier):
     res.run_rule(rule_r11, prog, res)
     res.run_rule(rule_r12, prog, res)
     res.run_rule(rule_r13, prog, res)
+    res.run_rule(rule_r14, prog, res)
 
 
 _X = 'spyne/protocol/xml.py'
